@@ -36,6 +36,11 @@ structure MSt where
 inductive MEv
   | readOk (preparsed : Bool) (nfiles : Nat)  -- a request was read; pre-parse created `nfiles` temp files
   | readErr              -- reading failed (bad request, body too large, multipart pre-parse error: Request.Reset)
+  | readDrainFail (nfiles : Nat) (earlyEOF : Bool)
+                         -- pre-parse (readMultipartForm): the form parsed COMPLETELY (creating `nfiles` temp files) but
+                         -- consuming the rest of the declared body failed — the connection ended early (earlyEOF) or the
+                         -- read returned an error (timeout, reset): the form is dropped, so readMultipartForm itself must
+                         -- remove its files (f.RemoveAll) on both branches before the request is reset
   | eof                  -- no further request
   | dispatch             -- the handler is called                                  ← monitor point
   | parse (nfiles : Nat) -- handler: MultipartForm() parses on demand (no-op when a form is already there)
@@ -66,6 +71,12 @@ def mstep (s : MSt) : MEv → Option MSt
       some { s with phase := .ready, reqNum := k, form := pre, files := if pre then s.files ++ List.replicate n k else s.files }
     else none
   | .readErr => if s.phase = .idle then some { removeLive { s with reqNum := s.reqNum + 1 } with phase := .leaving } else none
+  | .readDrainFail n _ =>
+    if s.phase = .idle then
+      let k := s.reqNum + 1
+      -- f, _ := mr.ReadForm(…) created the files; `_ = f.RemoveAll()` on the early-EOF and on the read-error branch
+      some { s with phase := .leaving, reqNum := k, files := (s.files ++ List.replicate n k).filter (· ≠ k) }
+    else none
   | .eof => if s.phase = .idle then some { s with phase := .leaving } else none
   | .dispatch => if s.phase = .ready then some { s with phase := .handler } else none
   | .parse n =>
